@@ -183,7 +183,14 @@ def _implementation_clauses():
     def wrong_field_type_reported(p):
         a = p.assumed("not self.schema.is_subtype(object_field.type, field.type)")
         if a is True:
-            return count(p.events, "error") >= 1 and "for[field.arguments]{" not in p.events
+            # the report belongs to the type test itself: it comes before whatever the method examines next (whether the arguments of such a
+            # field are still examined is not part of the rule: every further violation may be reported together with this one)
+            sub = [i for i, e in enumerate(p.events) if e.startswith("is_subtype(")]
+            if not sub:
+                return None
+            rest = p.events[sub[-1] + 1:]
+            stop = min([rest.index(e) for e in ("for[field.arguments]{", "for[object_field.arguments]{", "}") if e in rest] or [len(rest)])
+            return "error" in rest[:stop]
         return None
 
     def arguments_invariant(p):
@@ -212,7 +219,7 @@ def _implementation_clauses():
 
     def extra_required_argument_reported(p):
         if p.assumed("interface_arg is None") is True:
-            req = p.assumed("isinstance(arg.type, NonNullType)")
+            req = p.assumed("arg.required")        # required = non-null WITHOUT a default value (an argument with a default is optional)
             if req is None or "for[object_field.arguments]{" not in p.events:
                 return None
             i = p.events.index("for[object_field.arguments]{")
